@@ -239,6 +239,14 @@ Definition head_read_overwriting (st : head_st) (d : nat) : list row * status * 
     (firstn (Z.to_nat cnt) rows, s, mkHead up' n').
 Definition head_written_overwriting (st : head_st) (d : nat) : list row :=
   if h_n st <=? 0 then [] else fst (fst (up_read (h_up st) d)).
+(* headReader over any upstream reader (e.g. Head over a decoded stream) *)
+Definition head_over {S : Type} (read : S -> nat -> list row * status * S)
+           (st : S * Z) (d : nat) : list row * status * (S * Z) :=
+  let '(u, n) := st in
+  if n <=? 0 then ([], SEof, st)
+  else
+    let '(rows, s, u') := read u (if n <? Z.of_nat d then Z.to_nat n else d) in
+    (rows, s, (u', n - Z.of_nat (length rows))).
 Definition sem_head (n : Z) (l : list row) : list row := firstn (Z.to_nat n) l.
 
 (* constShard (slice.go:263-277), Go's truncated division on non-negative operands *)
